@@ -93,6 +93,12 @@ func (ex *Exec) heapInfo(fam, root, path string, leaf Leaf, key string, dim int)
 	}
 	h := &HeapInfo{Name: name, Sort: s, Key: key, Dim: dim, Leaf: leaf}
 	ex.heaps[name] = h
+	if ex.P.knownHeaps == nil {
+		ex.P.knownHeaps = map[string]*HeapInfo{}
+	}
+	if _, ok := ex.P.knownHeaps[name]; !ok {
+		ex.P.knownHeaps[name] = h
+	}
 	return h
 }
 
@@ -259,7 +265,11 @@ func (ex *Exec) typed(st *State, v Val) {
 			ex.fact(And(Ge(x, Int(0)), Implies(Eq(x, Int(0)), Eq(v.L[i+1], Int(0)))))
 		case "pl":
 			if st != nil {
-				// payloads that are references are bounded by alloc; scalars are not. Keep weak.
+				// values with methods are always boxed, so payloads of non-empty
+				// interfaces are references (or negative sentinel ids)
+				if it, ok := under(l.T).(*types.Interface); ok && it.NumMethods() > 0 {
+					ex.fact(Le(x, st.alloc))
+				}
 			}
 		}
 	}
